@@ -2,6 +2,7 @@ package sim
 
 import (
 	"fmt"
+	"math"
 	"sync"
 	"time"
 
@@ -143,7 +144,9 @@ func scenSched(r *Run) {
 		tk := &schedTask{id: len(tasks), deadline: deadline, submit: s.Now(), beforeClose: true}
 		tasks = append(tasks, tk)
 		mu.Unlock()
-		queued = append(queued, deadline)
+		if deadline < neverDeadline {
+			queued = append(queued, deadline)
+		}
 		when := s.Epoch().Add(deadline)
 		s.L.Logf("put task %d deadline=%v (now%+v)", tk.id, deadline, deadline-s.Now())
 		var f func()
@@ -259,6 +262,15 @@ func scenSched(r *Run) {
 				} else {
 					dl = now + time.Millisecond
 				}
+			case 6:
+				if t.Chance(ev, 300) {
+					// centuries away (beyond the years a nanosecond count since 1970 can
+					// express): never due within the run, must delay nothing
+					dl = time.Duration(math.MaxInt64) - time.Duration(t.Choose(ev, 1000))*time.Hour
+					s.Stats.Fault("deadline-centuries-away")
+				} else {
+					dl = now + time.Duration(t.Skewed(ev, 0, 2000000))*time.Microsecond
+				}
 			default:
 				dl = now + time.Duration(t.Skewed(ev, 0, 2000000))*time.Microsecond
 			}
@@ -329,8 +341,8 @@ func scenSched(r *Run) {
 			if tk.submit > due {
 				due = tk.submit
 			}
-			if !tk.beforeClose {
-				continue
+			if !tk.beforeClose || tk.deadline >= neverDeadline {
+				continue // (a never-due task that runs at all is caught by the never-early invariant)
 			}
 			if closed && due+allow >= closedAt {
 				continue // could legitimately be cut off by Close
@@ -387,6 +399,9 @@ func scenSched(r *Run) {
 		r.Res.Known = "leak"
 	}
 }
+
+// neverDeadline: deadlines from here on are not due within any run.
+const neverDeadline = 200 * 365 * 24 * time.Hour
 
 func init() {
 	Register("sched", false, scenSched)
